@@ -61,6 +61,8 @@ def run(ctx):
     n = exprcheck.random_cases(ctx, path, ctx.pick(800, 40000), 6, 12)
     exprcheck.validate_expr_trace(ctx, path, n)
     selectcheck.record_and_validate(ctx, 'plain', ctx.pick(600, 8000), 30)
+    # membership in the rows of a subquery (none, some NULL, all NULL), as target and as condition; scans over FROM (subquery)
+    selectcheck.record_and_validate(ctx, 'nested', ctx.pick(400, 6000), 16)
     ctx.exhaustive = False
 
 
